@@ -64,6 +64,38 @@ CLAIMED = {
         "Trusts exactlp certificates and the transcription of the documented formulations in vfw/oracles.py.",
         "DESIGN.md section 4 (C09)",
     ),
+    "C10": (
+        "round-trip PBT with validator oracle + differential testing against an independent libsbml reader on edited third-party documents",
+        "Exploration: generated models with rich identifiers/metadata written and read back through every target/source "
+        "variant (validity by validate_sbml_model, snapshot equality, fixed point), and shipped/generated SBML documents "
+        "mutated by validity-preserving libsbml edits and compared with the harness' own direct reading.",
+        "Trusts libsbml (parser, validator) and the harness' direct reader for fbc-v2; identifiers.org-style annotations only.",
+        "DESIGN.md section 4 (C10)",
+    ),
+    "C11": (
+        "round-trip PBT (save/load through every format variant), snapshot equality and fixed-point oracle",
+        "Exploration: generated models with rich identifiers/metadata and out-of-default bounds through JSON, YAML, dict "
+        "and pickle (string/path/handle, sort, pretty, protocols, non-default configured bounds); loaded model compared on "
+        "the statement's field list incl. raw GLPK and optimum; second round trip must be a fixed point.",
+        "Trusts the snapshot/diff code; fields outside the statement's list are not compared for the text formats.",
+        "DESIGN.md section 4 (C11)",
+    ),
+    "C13": (
+        "PBT over a call table of 33 analyses with generated arguments; before/after snapshot invariance and repeat-call metamorphic relation",
+        "Exploration: generated models (incl. infeasible/unbounded/degenerate) x analyses x arguments x call site (inside a "
+        "user context with pending changes or outside); full snapshot equality around every call whether it returns or "
+        "raises, equality of uniquely defined results of two consecutive calls, restoration after the user context.",
+        "Trusts the snapshot/diff code; random (sampling) and vertex-dependent results are not compared between calls.",
+        "DESIGN.md section 4 (C13)",
+    ),
+    "C14": (
+        "schedule-controlled PBT: generated process counts, item permutations, per-task delays and chunk sizes; metamorphic comparison with serial/single-item runs and exact oracle",
+        "Exploration: the harness owns delays, chunking, item order and process count of cobrapy's process pools "
+        "(parent-side wrappers inherited by forked workers) and compares every item's result with the serial run, the "
+        "single-item call and the exact LP; realised arrival order is recorded.",
+        "Does not own the kernel scheduler: interleavings finer than per-task delays are out of reach.",
+        "DESIGN.md section 4 (C14)",
+    ),
     "C12": (
         "stateful PBT: copy at a generated point of a history, then edits on either side with other-side snapshot invariance",
         "Exploration: generated models and pre-histories (incl. open contexts), copies by copy()/deepcopy/pickle, "
